@@ -443,10 +443,12 @@ impl Model {
 pub struct Problem {
     pub class: &'static str,
     pub text: String,
+    /// the hook kind the problem is attributed to ("" = the tick / program as a whole)
+    pub who: &'static str,
 }
 
 fn problem<T>(class: &'static str, text: String) -> Result<T, Problem> {
-    Err(Problem { class, text })
+    Err(Problem { class, text, who: "" })
 }
 
 /// C36 oracle for ONE release of one hook: `out` is what came out of the channel, `left` what the
@@ -687,6 +689,7 @@ pub fn run_tick(subjects: &mut [Subject], ch: &mut Chooser) -> Result<TickObs, P
             Ok(n) => nontrivial.push(n),
             Err(mut p) => {
                 p.text = format!("hook #{i} ({}): {}", s.live.kind.name(), p.text);
+                p.who = s.live.kind.name();
                 return Err(p);
             }
         }
